@@ -2,9 +2,9 @@
    gen/Consts_gen.v, Unicode facts of gen/Unicode_gen.v (SegCorr.parse_c).
    The side conditions on the regenerated data are proved here by
    computation over the regenerated lists. *)
-From Coq Require Import List ZArith NArith Bool Lia PArith FMapPositive.
+From Coq Require Import List ZArith NArith Bool Lia PArith FMapPositive Sorting.Permutation.
 From Pcfg Require Import Str Multiword Detect Segment SegCorr DetectProofsStr DetectProofsDrive DetectProofsSimple
-     DetectProofsMw DetectProofsSeg DetectProofsWeb DetectProofsKbd.
+     DetectProofsMw DetectProofsSeg DetectProofsWeb DetectProofsKbd DetectProofsCount DetectProofsPipe.
 From PcfgGen Require Import Consts_gen Unicode_gen.
 Import ListNotations.
 Open Scope Z_scope.
@@ -73,21 +73,42 @@ Proof. reflexivity. Qed.
 Lemma side_min_run : 4 <= c_min_run.
 Proof. vm_compute. discriminate. Qed.
 
+Definition c_counters_ok := counters_ok c_isupper c_lower.
+
 (* C05 for the pipeline *)
+Theorem parse_c_full :
+  forall m pw, pw <> [] ->
+  exists r, parse_c m pw = POk r /\ tiles c_pm pw (p_sections r) /\ Forall c_sound (p_sections r) /\
+            Forall (fun y => snd y <> None) (p_sections r) /\ c_counters_ok r.
+Proof.
+  intros m pw Hne. unfold parse_c, parse_gen. rewrite side_lower_aligned.
+  apply (parse_full c_isalpha c_isdigit c_isupper c_lower c_kbs kb_false_positive_words c_min_run tld_list
+           year_prefixes context_strings c_threshold c_min_len c_max_len side_min_len side_year_prefixes
+           side_tlds_nonempty side_min_run).
+  - apply good_all.
+  - assumption.
+Qed.
+
 Theorem parse_c_ok :
   forall m pw, pw <> [] ->
   exists r, parse_c m pw = POk r /\ tiles c_pm pw (p_sections r) /\ Forall c_sound (p_sections r) /\
             Forall (fun y => snd y <> None) (p_sections r).
+Proof. intros m pw H. destruct (parse_c_full m pw H) as (r & H1 & H2 & H3 & H4 & _). eauto. Qed.
+
+Theorem parse_c_counters : forall m pw, pw <> [] -> exists r, parse_c m pw = POk r /\ c_counters_ok r.
+Proof. intros m pw H. destruct (parse_c_full m pw H) as (r & H1 & _ & _ & _ & H5). eauto. Qed.
+
+(* a whole training pass: one parser object, the passwords in order *)
+Theorem parse_c_counters_fold : forall m pws, Forall (fun pw => pw <> []) pws ->
+  exists rs, map (parse_c m) pws = map POk rs /\ Forall c_counters_ok rs.
 Proof.
-  intros m pw Hne. unfold parse_c, parse_gen. rewrite side_lower_aligned.
-  apply (parse_ok c_isalpha c_isdigit c_isupper c_lower c_kbs kb_false_positive_words c_min_run tld_list
-           year_prefixes context_strings c_threshold c_min_len c_max_len side_min_len side_year_prefixes).
-  - apply kw_split_ok_proved. exact side_min_run.
-  - apply email_split_ok_proved.
-  - apply website_split_ok_proved. exact side_tlds_nonempty.
-  - apply good_all.
-  - assumption.
+  intros m pws H. induction H as [|pw pws Hpw _ (rs & E & Hrs)]; [now exists []|].
+  destruct (parse_c_counters m pw Hpw) as (r & Er & Hr). exists (r :: rs). simpl. rewrite Er, E. split; [reflexivity|now constructor].
 Qed.
+
+Lemma Permutation_flat_map {X Y} (f g : X -> list Y) l :
+  Forall (fun x => Permutation (f x) (g x)) l -> Permutation (flat_map f l) (flat_map g l).
+Proof. induction 1; simpl; [constructor|]. now apply Permutation_app. Qed.
 
 (* ---- witnesses: what the code did on U+0130 before the repair (the detectors
    searched section[0].lower() and sliced section[0]) *)
